@@ -419,7 +419,11 @@ func (txn MapTxn[K, V]) Commit() (m Map[K, V]) {
 		_, kv, _ := iter.Next()
 		m.singleton = &kv
 	default:
-		m.tree = txn.txn.Commit()
+		// The transaction stays usable after Commit(). Take a frozen clone
+		// instead of committing the underlying transaction, as Txn.Commit()
+		// would hand the transaction object for reuse to the next writer of
+		// the returned map while we still hold on to it.
+		m.tree = txn.txn.Clone()
 		m.hasTree = true
 	}
 	if m.singleton != nil {
